@@ -27,6 +27,18 @@ CHECKS = {
  'C10': ('vt', 'bounded-exhaustive enumeration of arrival-time sequences (with max_batch_size mutation events) on the real batcher under a virtual-time event loop',
          'All arrival sequences of up to 5 (thorough 7) calls on a gap grid straddling batch_timeout, with one max_batch_size mutation at any position, x size/concurrency/duration configs; the batch log of the harness batch function is checked for size limit, concurrency limit, FIFO, sharing-until-full and dispatch deadline (exact in virtual time, ties not judged).',
          'virtual clock; distinct keys; ties between arrivals and timers abstain on timing clauses only.', '3/C10'),
+ 'C14': ('vt', 'bounded-exhaustive enumeration of call signatures and cache-operation sequences on the real decorator under a virtual-time event loop',
+         'Every call signature (<= 2, thorough 3 positionals over a 9-value domain incl. equal-across-type and (name,value) tuples; keyword dicts over <= 3 names in every insertion order) called on one wrapped function forward / reverse / shuffled / concurrently (covers all ordered pairs) for default, dict and logging-mapping caches; every sequence of <= 4 (thorough 5) ops over {call, evict, clear} x 4 colliding signatures, and every call sequence on lru.LRU(1..3): invoked iff absent from the caller mapping, values tagged with the arguments that produced them.',
+         'single loop (cross-thread behaviour is C01); reference key relation is Python ==/hash.', '3/C14'),
+ 'C15': ('vt', 'bounded-exhaustive enumeration of probe programs per decorator option, differential between the options-decorator form and the direct forms, under a virtual-time event loop',
+         'For every option of the three decorators (singly and jointly) all probe programs of <= 3 calls over a gap grid are run on @deco(opt=v), deco(func, opt=v) and the class; full virtual-time logs must be identical and must differ from the default configuration (sensitivity check, else the check fails as vacuous); a decorated batcher is driven from 1..3 successive loops (closed / kept open).',
+         'virtual clock; loops used one after another here (concurrent loops: engine B).', '3/C15'),
+ 'C18': ('sq', 'exhaustive DFS over all pull interleavings of the two result iterators against a list-comprehension reference',
+         'All sources of length 0..4 (thorough 6) over a 3-value domain as list / one-shot iterator x all truth-table callables, stateful callables, boolean lists/iterators shorter/equal/longer x EVERY interleaving of next() on the two results; each prefix compared with the reference partition, predicate call log and source pull count; exhaust() too.',
+         'sequential code; stateless search re-builds fresh objects per path.', '3/C18'),
+ 'C19': ('sq', 'grammar-bounded exhaustive enumeration of inputs, executed as chained call histories, against an independent reference',
+         'All item lists of length 0..3 (thorough 4) over literal / non-literal fragment grammars x 3 input shapes x separators of length 1..2 x parse_keys x raising custom parsers, compared (types included) with an independent reference (own split, ast whitelist walker); calls are chained in one process and returned containers mutated, so state kept between calls shows; tripwire object + import counter detect any evaluation.',
+         'reference decoder independent of ast.literal_eval; signed numbers are literals, nested unary minus is not.', '3/C19'),
  'C20': ('vt', 'bounded-exhaustive enumeration of timed programs on the real code under a virtual-time event loop',
          'All lists of 0..4 (thorough 5) awaitables x outcomes x every weak ordering of finishing times x `only` are run through the real gather_excs/raise_first_exc on a virtual loop and compared with a list-comprehension reference; exhaustive within these bounds.',
          'CPython 3.12 asyncio semantics; virtual clock instead of real time; bounds as stated.', '3/C20'),
